@@ -77,7 +77,9 @@ def nameOk (cs : List Char) : Bool :=
   | [] => false
   | [single] => pathComponent single
   | first :: rest =>
-    if looksLikeDomain first then domainOk first && rest.all pathComponent
+    -- the reference grammar's registry host is optional: a first component that looks like a host but is not a valid one
+    -- (`reg.io_5000`) can still be an ordinary path component
+    if looksLikeDomain first then (domainOk first || pathComponent first) && rest.all pathComponent
     else pathComponent first && rest.all pathComponent
 
 /-- result of the parse as the defaulter sees it: `none` = error, `some (tag, hasDigest)` -/
